@@ -184,6 +184,10 @@ func (i *InvalidationIndex) cutKeys(labeledKeys map[string][]string, labels ...s
 	defer i.mu.Unlock()
 
 	for _, label := range labels {
+		if _, ok := res[label]; ok {
+			continue // Label is repeated in arguments, its keys are already cut.
+		}
+
 		res[label] = labeledKeys[label]
 		delete(labeledKeys, label)
 	}
